@@ -360,8 +360,10 @@ def geometry(ctx, rr):
     # sequential scans step by the storage block size
     for cls in ('LRUTrie', 'LinkStore'):
         u = P.method(cls, 'nodes_iter')
-        steps = [ast.unparse(c.args[0]) for c in P.own(u, ast.Call) if isinstance(c.func, ast.Attribute) and c.func.attr == 'read' and c.args]
-        ok = bool(steps) and all(s.replace(' ', '') in ('node.block+self.storage.block_size', 'self.storage.block_size+node.block') for s in steps)
+        reads = [c for c in P.own(u, ast.Call) if isinstance(c.func, ast.Attribute) and c.func.attr == 'read' and c.args and isinstance(c.func.value, ast.Name)]
+        steps = [ast.unparse(c.args[0]) for c in reads]
+        ok = bool(reads) and all(ast.unparse(c.args[0]).replace(' ', '') in ('%s.block+self.storage.block_size' % c.func.value.id,
+                                                                              'self.storage.block_size+%s.block' % c.func.value.id) for c in reads)
         check(ctx.where(u), '%s.nodes_iter advances by exactly one block (%s)' % (cls, steps), ok, u, stmt='nodes_iter step')
     rr.info.update({'trie_block': nsize, 'link_block': lsize, 'stem_payload': stem, 'node_values': nvals})
 
@@ -446,8 +448,15 @@ def tail_protocol(ctx, rr):
         fail(r, wl[0] if wl else r.node, 'tail reader no longer continues exactly while the block just read carries the HAS_TAIL flag the writer sets')
     # stem() = head + tail
     st = P.method(TRIE_NODE, 'stem')
-    rets = [ast.unparse(x.value).replace(' ', '') for x in P.own(st, ast.Return) if x.value is not None]
-    ok = rets == ['chars+self.tail'] or rets == ['self.data[LRU_TRIE_NODE_STEM]+self.tail']
+    rets = [x.value for x in P.own(st, ast.Return) if x.value is not None]
+    ok = len(rets) == 1 and isinstance(rets[0], ast.BinOp) and isinstance(rets[0].op, ast.Add) and ast.unparse(rets[0].right) == 'self.tail'
+    if ok:
+        head = rets[0].left
+        if isinstance(head, ast.Name):
+            src = [a.value for a in P.own(st, ast.Assign) if any(isinstance(t, ast.Name) and t.id == head.id for t in a.targets)]
+            ok = len(src) == 1 and ast.unparse(src[0]) == 'self.data[LRU_TRIE_NODE_STEM]'
+        else:
+            ok = ast.unparse(head) == 'self.data[LRU_TRIE_NODE_STEM]'
     rr.ob(ctx.where(st), 'stem() returns head payload followed by the tail', ok=ok)
     if not ok:
         fail(st, st.node, 'stem() no longer returns head payload + tail')
